@@ -305,6 +305,11 @@ class SymEnv:
             if self.old is None:
                 raise ContractError('old() without entry state')
             return SymEnv(self.g, self.old, self.b, self.old, self.result, self.goal).e(A[0])
+        if f == 'at_iter_start':
+            if 'iter' not in self.labels:
+                raise ContractError('at_iter_start() is only available in loop hints')
+            e2 = SymEnv(self.g, self.labels['iter'], self.b, self.old, self.result, self.goal)
+            return e2.e(A[0])
         if f == 'at_loop_entry':
             if 'loop' not in self.labels:
                 raise ContractError('at_loop_entry() outside a loop invariant')
